@@ -53,6 +53,7 @@ let minusx : (int * int, tables * int list) Hashtbl.t = Hashtbl.create 64
 let down_cases = ref 0
 
 let cases = ref 0 and mon_fail = ref 0 and crash_points = ref 0
+let mem_cmp = ref 0
 let corr_fail = ref 0 and tr_ops = ref 0 and tr_stmts = ref 0 and crashdb_cmp = ref 0 and crashdb_skip = ref 0
 let tr_kinds : (string, int) Hashtbl.t = Hashtbl.create 32
 
@@ -293,11 +294,28 @@ let handle_cr lineno _line (r : reader) =
   List.iter (fun t ->
     if t = "restart=0" then fail "restart-failed" lineno case "bootstrap-panicked-or-tower-id-changed";
     if String.length t >= 9 && String.sub t 0 9 = "catchup=X" then fail "restart-failed" lineno case "catch-up-poll-panicked") rest;
-  (* recovered tables: no dangling records *)
+  (* recovered tables: no dangling records; the memory of the restarted gatekeeper (the read made right after the
+     restart, tokens mem<u>=SO_<slots>_<expiry>_...) is the users table (CrashReach.restart_loads_users) *)
   let rec recs l = match split_at "REC" l with
     | (_, []) -> ()
-    | (_, after) -> let (t, rest') = parse_tables after in
+    | (before, after) -> let (t, rest') = parse_tables after in
         if not (db_inv_b (db_of t)) then fail "dangling-records" lineno case "after-restart";
+        List.iter (fun tok ->
+          if String.length tok > 5 && String.sub tok 0 3 = "mem" then
+            (match String.split_on_char '=' tok with
+             | [k; v] ->
+                 (match String.split_on_char '_' v with
+                  | "SO" :: s :: e :: _ ->
+                      let u = int_of_string (String.sub k 3 (String.length k - 3)) in
+                      incr mem_cmp;
+                      (match List.find_opt (fun r -> List.hd r = u) t.users with
+                       | Some [_; ds; _; de] ->
+                           if int_of_string s <> ds || int_of_string e <> de then
+                             fail "restart-memory-differs-from-users-table" lineno case
+                               (Printf.sprintf "user=%d,memory=(slots=%s,expiry=%s),table=(slots=%d,expiry=%d)" u s e ds de)
+                       | _ -> fail "restart-memory-differs-from-users-table" lineno case (Printf.sprintf "user=%d,memory=(slots=%s,expiry=%s),table=no-row" u s e))
+                  | _ -> ())
+             | _ -> ())) before;
         recs rest' in
   recs (fst (split_at "FINAL" rest));
   let (_, after_final) = split_at "FINAL" rest in
@@ -377,8 +395,8 @@ let handle_cr lineno _line (r : reader) =
 
 let summary () =
   if !cases > 0 then
-    Printf.printf "SUMMARY kind=CR cases=%d histories=%d crash_points_in_histories=%d mon_fail=%d corr_fail=%d distinct_nontrivial=%d trace_ops=%d trace_durable_steps=%d crashdb_compared=%d crashdb_skipped=%d down_cases=%d labels=%s micro_kinds=%s\n"
-      !cases (Hashtbl.length refs) !crash_points !mon_fail !corr_fail (Hashtbl.length distinct) !tr_ops !tr_stmts !crashdb_cmp !crashdb_skip !down_cases
+    Printf.printf "SUMMARY kind=CR cases=%d histories=%d crash_points_in_histories=%d mon_fail=%d corr_fail=%d distinct_nontrivial=%d trace_ops=%d trace_durable_steps=%d crashdb_compared=%d crashdb_skipped=%d down_cases=%d restart_memory_compared=%d labels=%s micro_kinds=%s\n"
+      !cases (Hashtbl.length refs) !crash_points !mon_fail !corr_fail (Hashtbl.length distinct) !tr_ops !tr_stmts !crashdb_cmp !crashdb_skip !down_cases !mem_cmp
       (String.concat "," (List.sort compare (Hashtbl.fold (fun k v acc -> Printf.sprintf "%s:%d" k v :: acc) labels [])))
       (String.concat "," (List.sort compare (Hashtbl.fold (fun k v acc -> Printf.sprintf "%s:%d" k v :: acc) tr_kinds [])))
 
